@@ -18,6 +18,13 @@ Print Assumptions C17_reflexive.
 Theorem C17_symmetric : forall a b, dataset_eqb a b = dataset_eqb b a.
 Proof. exact dataset_eqb_sym. Qed.
 Print Assumptions C17_symmetric.
+(** with reflexivity and symmetry: an equivalence relation (a == b and b == c leave no room for a != c) *)
+Theorem C17_transitive : forall a b c, dataset_eqb a b = true -> dataset_eqb b c = true -> dataset_eqb a c = true.
+Proof.
+  intros a b c H1 H2. apply dataset_eqb_spec. intros r.
+  rewrite (proj1 (dataset_eqb_spec a b) H1 r). exact (proj1 (dataset_eqb_spec b c) H2 r).
+Qed.
+Print Assumptions C17_transitive.
 
 (** irrespective of the order of the rankings *)
 Theorem C17_order_of_rankings : forall a a' b, Permutation a a' -> dataset_eqb a b = dataset_eqb a' b.
